@@ -11,7 +11,8 @@ Definition special_cmds : list (bstr * bstr) :=
    ([108; 98], [123]); ([114; 98], [125])].
 
 (* {literal}s{/literal}: the text s, verbatim.  It is treated as a command whose "name" is everything between
-   the outer braces and whose text is s; s must not contain the closing tag before its end. *)
+   the outer braces and whose text is s; s must not contain the closing tag before its end.  Blanks before the
+   brace of the opening tag are allowed ([lit_name_sp] below). *)
 Definition lit_close : bstr := Eval vm_compute in b "{/literal}".
 Definition lit_open_tail : bstr := Eval vm_compute in b "literal}".
 Definition lit_close_head : bstr := Eval vm_compute in b "{/literal".
@@ -21,9 +22,15 @@ Fixpoint first_close (s : bstr) : option nat :=
   else match s with [] => None | _ :: r => match first_close r with Some k => Some (S k) | None => None end end.
 Definition lit_closed (s : bstr) : Prop := forall r, first_close (s ++ lit_close ++ r) = Some (length s).
 
+(* the opening tag may be written with blanks before its brace -- {literal  } -- (lexLiteral skips spaces and
+   tabs after the word): [lit_name_sp sp s] with sp a run of spaces and tabs; [lit_name s] is the case sp = [] *)
+Definition lit_word : bstr := Eval vm_compute in b "literal".
+Definition lit_blank (c : N) : Prop := c = 32 \/ c = 9.
+Definition lit_name_sp (sp s : bstr) : bstr := lit_word ++ sp ++ [125] ++ s ++ lit_close_head.
+
 Definition seg := ((bstr * bstr) * bstr)%type.       (* a command, then the stretch of text after it *)
 Definition cmd_ok (c : bstr * bstr) : Prop :=
-  In c special_cmds \/ (fst c = lit_name (snd c) /\ lit_closed (snd c)).
+  In c special_cmds \/ (exists sp, Forall lit_blank sp /\ fst c = lit_name_sp sp (snd c) /\ lit_closed (snd c)).
 
 Fixpoint rest_src (r : list seg) : bstr :=
   match r with [] => [] | ((n, _), T) :: r' => [123] ++ n ++ [125] ++ T ++ rest_src r' end.
